@@ -36,6 +36,12 @@ type gcHolder2 struct {
 	P *gcPayload
 }
 
+// a component whose only GC-relevant fields are strings
+type gcStrings struct {
+	N    int64
+	A, B string
+}
+
 type gcPlain1 struct{ X, Y int64 }
 type gcPlain2 struct{ V [3]int32 }
 type gcRel struct {
@@ -80,6 +86,7 @@ func gcSoak(seconds float64, seed uint64) {
 	p1 := ecs.ComponentID[gcPlain1](&w)
 	p2 := ecs.ComponentID[gcPlain2](&w)
 	relID := ecs.ComponentID[gcRel](&w)
+	sID := ecs.ComponentID[gcStrings](&w)
 	expect := map[ecs.Entity]uint64{}
 	ents := []ecs.Entity{}
 	var next uint64 = 1
@@ -124,6 +131,12 @@ func gcSoak(seconds float64, seed uint64) {
 		}
 		if w.Has(e, relID) {
 			checkPayload((*gcRel)(w.Get(e, relID)).P, tok, fmt.Sprintf("entity %v relation payload", e))
+		}
+		if w.Has(e, sID) {
+			sc := (*gcStrings)(w.Get(e, sID))
+			if sc.A != fmt.Sprintf("payload-string-A-%d-%d", tok, tok*7) || sc.B != fmt.Sprintf("B/%d/%d/%d", tok, tok, tok) {
+				gcFail("entity %v: strings in component corrupted: %q %q (token %d)", e, sc.A, sc.B, tok)
+			}
 		}
 	}
 	for i := 0; i < 1500; i++ {
@@ -170,6 +183,11 @@ func gcSoak(seconds float64, seed uint64) {
 			case 7:
 				if w.Has(e, relID) {
 					w.Relations().Set(e, relID, pick(r, targets))
+				} else if !w.Has(e, sID) {
+					tok := expect[e]
+					w.Assign(e, ecs.Component{ID: sID, Comp: &gcStrings{N: 1, A: fmt.Sprintf("payload-string-A-%d-%d", tok, tok*7), B: fmt.Sprintf("B/%d/%d/%d", tok, tok, tok)}})
+				} else if r.chance(30) {
+					w.Remove(e, sID)
 				}
 			case 8:
 				// batch move of everything that has p1 but not p2 (and back later)
@@ -281,6 +299,24 @@ func gcRetain() {
 	step("reset", n, func(es []ecs.Entity) {
 		w.Reset()
 	})
+	// relation tables with a live non-zero target that still hold entities when the world is reset
+	relID := ecs.ComponentID[gcRel](&w)
+	finalized = 0
+	tgt := w.NewEntity()
+	for i := 0; i < n; i++ {
+		e := ecs.NewBuilder(&w, hID, relID).WithRelation(relID).New(tgt)
+		(*gcHolder)(w.Get(e, hID)).P = trackedPayload(uint64(3000 + i))
+		(*gcRel)(w.Get(e, relID)).P = trackedPayload(uint64(4000 + i))
+	}
+	settle()
+	if finalized != 0 {
+		gcFail("retain/reset-relation: %d payloads collected while their components still exist", finalized)
+	}
+	w.Reset()
+	settle()
+	if finalized < 2*n {
+		gcFail("retain/reset-relation: only %d of %d payloads were released after Reset (retired relation tables keep them alive)", finalized, 2*n)
+	}
 	step("overwrite", n/2, func(es []ecs.Entity) {
 		for i := 0; i < n/2; i++ {
 			w.Set(es[i], hID, &gcHolder{P: nil})
